@@ -169,7 +169,18 @@ def body_summary(b, roles, subst):
             continue
         if kind == 'EXPIRED' and isinstance(args[0], Ent) and args[0].kind == 'LV':
             continue
-        conds.append((kind, truth, show(canon(raw, subst, counter))))
+        if kind == 'OTHER':
+            conds.append((kind, truth, show(canon(raw, subst, counter))))
+        else:
+            reps = []
+            for a in args:
+                if isinstance(a, Ent):
+                    reps.append('%s(%s)' % (a.kind, show(canon(a.arg, subst, counter)) if isinstance(a.arg, tuple) and a.arg and isinstance(a.arg[0], str) and a.arg[0] in ('p', 'ld', 'fld', 'elem', 'get', 'deref') else (a.arg if not isinstance(a.arg, (tuple, int)) else '')))
+                elif isinstance(a, tuple) and a and a[0] in ('now', 'ld', 'p', 'fld', 'q', 'adv'):
+                    reps.append(show(canon(a, subst, counter)))
+                elif isinstance(a, (str,)):
+                    reps.append(a)
+            conds.append((kind, truth, ','.join(reps)))
     effs = []
     for e in ops.body_effects(b, roles):
         d = {}
